@@ -56,6 +56,9 @@ func init() {
 	register(&Property{ID: "C08", Level: "exploration",
 		Rule:  planRule + "one evaluation = history plan -> CopyFrom(fresh struct) -> CopyTo(into a deep copy of the same plan object) -> CopyFrom; oracles: no unknown below field-backed attributes, every known non-element attribute unchanged (value / null-ness / length / key set; counter known-attributes-judged), second decode equals the first in normal form",
 		Check: stdL2("C08", 8, 150)})
+	register(&Property{ID: "C09", Level: "exploration",
+		Rule:  "cases = curated corpus + seeded random descriptors; per selected type N histories CopyTo(s0); CopyTo(s1); ... on one object starting from the empty schema-typed object (2 steps quick, 5 thorough), sources alternating dense / mixed / sparse / zero / boundary lattice modes so that every list grows, shrinks, empties and becomes nil and maps gain and lose keys; after every step the object is judged against the last source and the object before the step (counter refresh-attributes-judged) and the step is repeated to check idempotence; distinct = distinct (case, type, sequence of shape signatures)",
+		Check: stdL2("C09", 8, 150)})
 	register(&Property{ID: "C20", Level: "exploration",
 		Rule:  latticeRule + "one evaluation = one CopyTo into an empty object followed by the null-ness walk over every non-element attribute (counter judged-attributes)",
 		Check: stdL2("C20", 8, 150)})
